@@ -18,21 +18,36 @@ import units_c09  # noqa: E402
 
 LEVEL = 'proof'
 META = {
-    'text': 'Coq theorems (Props/C09.v) about the Gallina text regenerated from tlslite/utils/{poly1305,chacha,'
-            'chacha20_poly1305}.py on every run: Poly1305 = RFC 8439 2.5 for every message length; the ChaCha20 '
-            'rotations, quarter round, double round, block function and stream encryption = RFC 8439 2.1-2.4 on the '
-            'whole 32-bit range; ChaCha20-Poly1305 seal/open = RFC 8439 2.8 and open accepts exactly the outputs of seal. '
-            'Generated model, Coq spec and implementation are evaluated on the same cases; the implementation is also '
-            'compared with independent references (own RFC transcription in Python, openssl CLI).',
-    'note': 'Trusted: Coq kernel + vm_compute; translator/pylite.py + pylite_c09.py (validated by evaluation); Spec/C09_*.v '
-            'as the reading of the RFCs; struct.pack/unpack, hmac.compare_digest and int arithmetic of CPython as modelled in '
-            'Base/C09_Lib.v; messages within the 32-bit block counter (< 256 GiB). AES/3DES block functions and '
-            'SHA/MD5/HMAC are oracles (not verified here).',
-    'technique': 'Rocq/Coq proof over translator-regenerated model + vm_compute correspondence + independent references',
+    'text': 'Coq theorems (Props/C09.v, 38, all closed under the global context) about the Gallina text regenerated on every run '
+            'from tlslite/utils/{poly1305,chacha,chacha20_poly1305,python_rc4,rc4,aes,python_aes,aesgcm,aesccm}.py, '
+            'utils/cryptomath.py (HKDF_expand) and mathtls.py (P_hash, PRF, PRF_1_2*): Poly1305, ChaCha20 (rotations, rounds, block, '
+            'stream) and ChaCha20-Poly1305 seal/open = RFC 8439 for every key/nonce/length; open accepts exactly seal\'s outputs '
+            '(ChaCha20-Poly1305 and AES-GCM, structural); HKDF-Expand = RFC 5869 up to 254*HashLen and REFUTED for the last block '
+            '(finding); P_hash / TLS 1.0 / 1.2 / SSLv3 PRFs, HKDF-Expand-Label, Derive-Secret, calc_key (whole version x hash x label '
+            'table), key-block slicing and TLS 1.3 traffic keys = their RFCs; RC4 = spec with stream splitting; AES-CBC wrapper = '
+            'SP 800-38A incl. the IV carried between calls; CTR stream splitting REFUTED (finding). Generated/hand models, Coq specs and '
+            'the implementation are evaluated on the same cases by vm_compute; the implementation is also compared with independent '
+            'references (RFC transcriptions on hashlib/hmac, openssl CLI, NIST vectors).',
+    'note': 'Oracles (not verified): SHA/MD5/HMAC (hashlib) and the AES / DES block functions (rijndael.py, python_tripledes.py are covered '
+            'by correspondence against openssl ECB and FIPS-197 vectors only). Not proved, correspondence only: GHASH / gcm_mul = GF(2^128), '
+            'gcm_seal = SP 800-38D, everything about CCM, one-call CTR = SP 800-38A, 3DES-CBC; HKDF_expand_label, derive_secret, PRF_SSL, '
+            'calc_key, key-block slicing and TLS 1.3 keys are hand models tied by correspondence. Trusted: Coq kernel + vm_compute; '
+            'translator/pylite.py + pylite_c09.py (validated by evaluating every generated function); Spec/C09_*.v as the reading of the '
+            'standards; CPython struct/int/hmac.compare_digest as modelled in Base/C09_Lib.v. Hypotheses: byte ranges and lengths of '
+            'inputs, ChaCha block counter within 32 bits, AAD < 2^64, hash/HMAC outputs of the declared size.',
+    'technique': 'Rocq/Coq proof over translator-regenerated models + vm_compute correspondence + independent references (hashlib/hmac, openssl CLI)',
 }
 UNITS = ['C09_Poly1305', 'C09_ChaCha', 'C09_ChaChaPoly', 'C09_KDF', 'C09_RC4', 'C09_AesModes', 'C09_GCM', 'C09_CCM']
 MODEL_TARGETS = ['Gen/%s.vo' % u for u in UNITS] + ['Spec/C09_Poly1305.vo', 'Spec/C09_ChaCha.vo', 'Spec/C09_ChaChaPoly.vo',
                                                   'Spec/C09_KDF.vo', 'Spec/C09_KeyCalc.vo', 'Model/C09_KeyCalc.vo', 'Toy/C09_ToyOracle.vo', 'Spec/C09_Modes.vo', 'Spec/C09_AEAD.vo']
+
+
+PROOF_UNIT = {
+    'Proofs/C09_Poly1305.v': 'poly1305', 'Proofs/C09_ChaCha.v': 'chacha', 'Proofs/C09_ChaChaPoly.v': 'chacha20_poly1305',
+    'Proofs/C09_KDF.v': 'HKDF_expand/P_hash/PRF', 'Proofs/C09_KeyCalc.v': 'calc_key/HKDF_expand_label', 'Proofs/C09_Modes.v': 'python_rc4/CBC spec',
+    'Proofs/C09_CBC.v': 'python_aes CBC', 'Proofs/C09_CTR.v': 'python_aes CTR', 'Proofs/C09_GCM.v': 'aesgcm/python_aes CTR',
+    'Proofs/C09_Bits32.v': 'chacha', 'Proofs/C09_Lists.v': 'library', 'Props/C09.v': 'statements',
+}
 
 
 class State:
@@ -430,7 +445,7 @@ def sec_kdf(S, quick):
         if not quick:
             Ls += [rng.randrange(0, 255 * hl) for _ in range(8)] + [5 * hl, 100 * hl + 3]
         for L in Ls:
-            prk, info = rbytes(rng, rng.choice([hl, hl, 16, 0])), rbytes(rng, rng.choice([0, 10, 13 + hl]))
+            prk, info = rbytes(rng, rng.choice([hl, hl, 16, 0, 65, 129, 200])), rbytes(rng, rng.choice([0, 10, 13 + hl]))
             runs = both_modes(lambda: bytes(cryptomath.HKDF_expand(bytearray(prk), bytearray(info), L, alg)))
             meta = {'unit': 'hkdf_expand', 'alg': alg, 'prk': prk.hex(), 'info': info.hex(), 'L': L}
             nblk = (L + hl - 1) // hl
@@ -446,8 +461,9 @@ def sec_kdf(S, quick):
                     o = ref.ossl_hkdf_expand(prk, info, L, alg)
                     ctx.count('kdf:impl-vs-openssl', 1, [('hkdf', alg, cls)])
                     if real[1] != o:
-                        S.bad('hkdf_expand!=openssl:' + cls, 'HKDF_expand differs from `openssl kdf HKDF` (EXPAND_ONLY)',
-                              dict(meta, impl=hexs(real[1]), code=real[2]))
+                        # the same failing input as above when the implementation raised: one finding, one key
+                        S.bad(('hkdf_expand!=rfc5869:' if real[1] is None else 'hkdf_expand!=openssl:') + cls,
+                              'HKDF_expand differs from `openssl kdf HKDF` (EXPAND_ONLY)', dict(meta, impl=hexs(real[1]), code=real[2]))
             ctx.count('kdf:impl-vs-rfc-python', 1, [('hkdf', alg, cls, min(nblk, 4))])
             for mode, v, code, table in runs:
                 # the Coq spec recomputes T(1..i) for every i: quadratic; in quick only one long case goes through it
@@ -458,7 +474,7 @@ def sec_kdf(S, quick):
     for alg in ['sha256', 'sha384']:
         hl = ALG_DS[alg]
         for length in [12, 16, 32, hl, 2 * hl + 1, 255 * hl, 0] + ([] if quick else [1, 100, 254 * hl, 65535, 65536]):
-            secret, label, ctxv = rbytes(rng, hl), rng.choice([b'key', b'iv', b'exporter', b'finished', b'c hs traffic', b'x' * 249, b'x' * 250]), \
+            secret, label, ctxv = rbytes(rng, rng.choice([hl, hl, 0, 1, 200])), rng.choice([b'key', b'iv', b'exporter', b'finished', b'c hs traffic', b'x' * 249, b'x' * 250]), \
                 rbytes(rng, rng.choice([0, hl, 255, 256]) if rng.random() < 0.3 else rng.choice([0, hl]))
             runs = both_modes(lambda: bytes(cryptomath.HKDF_expand_label(bytearray(secret), bytearray(label), bytearray(ctxv), length, alg)))
             meta = {'unit': 'hkdf_expand_label', 'alg': alg, 'secret': secret.hex(), 'label': label.hex(), 'context': ctxv.hex(), 'L': length}
@@ -552,7 +568,7 @@ def sec_kdf(S, quick):
     for ver in [(3, 0), (3, 1), (3, 2), (3, 3), (3, 4)]:
         for suite, prf_alg in ((s256, 'sha256'), (s384, 'sha384')):
             for purpose, label in list(PURPOSES.items()) + [('bad', b'no such label')]:
-                secret = rbytes(rng, rng.choice([48, 47, 32]))
+                secret = rbytes(rng, rng.choice([48, 47, 32, 0, 1, 65, 129, 200]))
                 tr, cr, sr = rbytes(rng, rng.choice([0, 100])), rbytes(rng, 32), rbytes(rng, 32)
                 n = {'master': 48, 'ems': 48, 'keyexp': rng.choice([40, 72, 104, 136]), 'cfin': 12, 'sfin': 12, 'bad': 12}[purpose]
                 use_hh = purpose in ('ems', 'cfin', 'sfin') or rng.random() < 0.2
@@ -768,10 +784,31 @@ def sec_modes(S, quick):
     sec = Section('C09mode', ['Base.C09_Oracle', 'Gen.C09_RC4', 'Gen.C09_AesModes', 'Spec.C09_Modes', 'Toy.C09_ToyOracle'], 'bool', MODES_PRE)
     sec.fns = [('(fun b : bool => b)', 'model', 'modes:model+coqspec-vs-impl')]
     # ---------------- RC4: one object, several calls; every split offset of 3 messages
+    # key schedule for EVERY legal key length (RC4 base class admits 16..256 bytes), one-shot key stream vs the textbook RC4
+    for kl in (list(range(16, 41)) + [47, 48, 63, 64, 65, 100, 127, 128, 129, 200, 255, 256] if quick else range(16, 257)):
+        key = rbytes(rng, kl)
+        m = rbytes(rng, 40)
+        v, code = runf(lambda: bytes(python_rc4.new(bytearray(key)).encrypt(bytearray(m))))
+        want = ref.rc4_crypt(ref.rc4_init(key), m)
+        ctx.count('modes:impl-vs-rfc-python', 1, [('rc4-keylen', kl)])
+        if v != want:
+            S.bad('rc4!=spec:keylen%s' % ('=2^k' if kl & (kl - 1) == 0 else '!=2^k'),
+                  'Python_RC4 with a %d-byte key produces a key stream different from RC4 (key schedule / generator)' % kl,
+                  {'unit': 'rc4', 'key': key.hex(), 'msg': m.hex(), 'splits': [0, 0], 'impl': hexs(v), 'code': code, 'rfc': want.hex()})
+        if kl == 16:            # the openssl CLI's rc4 takes exactly 16 key bytes
+            o = ref.ossl_rc4(key, m)
+            ctx.count('modes:impl-vs-openssl', 1, [('rc4', kl)])
+            if v != o:
+                S.bad('rc4!=openssl', 'Python_RC4 differs from `openssl enc -rc4` for a %d-byte key' % kl,
+                      {'unit': 'rc4', 'key': key.hex(), 'msg': m.hex(), 'splits': [0, 0], 'impl': hexs(v), 'openssl': o.hex()})
+        if kl in (16, 17, 20, 24, 31, 33, 100, 256):
+            sec.add('match rc4_init %s with Ok st => rc4_calls st %s | Err _ => false end && rc4_spec_calls (rc4_ksa %s, 0, 0) %s' % (
+                blit(key), call_lit([(False, m[:8], v[:8] if v else None, code)]), blit(key), call_lit([(False, m[:8], v[:8] if v else None, code)])),
+                {'unit': 'rc4', 'key': key.hex(), 'msg': m[:8].hex(), 'splits': [0, 0]})
     msgs = [rbytes(rng, n) for n in ((5, 17, 40) if quick else (5, 17, 40, 300))]
     n_ossl = 0
     for m in msgs + [b'', rbytes(rng, 1)]:
-        key = rbytes(rng, rng.choice([16, 16, 5 + 11, 32, 256]))
+        key = rbytes(rng, rng.choice([16, 16, 20, 24, 32, 37, 256]))
         whole = ref.rc4_crypt(ref.rc4_init(key), m)
         if len(m) > 1 and n_ossl < 3 and len(key) == 16:
             n_ossl += 1
@@ -874,10 +911,10 @@ def sec_modes(S, quick):
             sec.add('match %s (borc None) %s %d %s with Ok _ => false | Err e => Z.eqb (exn_code e) %d end' % (fn, blit(bytes(kl)), mode, blit(bytes(ivl)), code),
                     {'unit': 'aes-init', 'kl': kl, 'ivl': ivl, 'mode': mode})
     # ---------------- AES-CTR (Python_AES_CTR): one-shot vs SP 800-38A, then multi-call splits at every offset
-    for kl in (16, 32):
+    for kl in (16, 24, 32):
         for L in ([0, 1, 15, 16, 17, 40] if quick else [0, 1, 15, 16, 17, 31, 32, 33, 40, 80, 81]):
             key, m = rbytes(rng, kl), rbytes(rng, L)
-            ivl = rng.choice([16, 12, 16, 4])
+            ivl = rng.choice([16, 12, 16, 4, 8, 0, 15])
             ivb = rbytes(rng, ivl)
             if ivl == 16 and rng.random() < 0.4:
                 ivb = ivb[:12] + b'\xff\xff\xff' + bytes([rng.choice([0xfe, 0xff, 0xfd])])     # carry across bytes / wrap
@@ -999,7 +1036,7 @@ def sec_aesaead(S, quick):
     from tlslite.utils.rijndael import Rijndael
     ctx, rng = S.ctx, S.ctx.rng
     sec = Section('C09aead', ['Base.C09_Oracle', 'Gen.C09_AesModes', 'Gen.C09_GCM', 'Gen.C09_CCM', 'Spec.C09_AEAD', 'Toy.C09_ToyOracle'],
-                  'CT', AEAD2_PRE.replace('LONGAAD', '5000' if quick else '65280'))
+                  'CT', AEAD2_PRE.replace('LONGAAD', '5000'))
     sec.fns = [('chk_model', 'model', 'aesaead:model-vs-impl'), ('chk_spec', 'spec', 'aesaead:coqspec-vs-impl')]
 
     class Rec(object):
@@ -1148,6 +1185,16 @@ def run(ctx):
         if not ok:
             S.tie_broken = S.tie_broken or msg
     res = vlib.proof_stage(ctx, 'Props/C09.v', model_targets=MODEL_TARGETS)
+    if not res['ok']:
+        # make -k goes on after the first error: name every file that no longer checks and the unit it is about
+        import re
+        fails = []
+        for m in re.finditer(r'File "\./([^"]+)", line (\d+)', res['log']):
+            f = '%s:%s' % (m.group(1), m.group(2))
+            if f not in fails:
+                fails.append(f)
+        if fails:
+            res['failing'] = ' '.join('%s[%s]' % (f, PROOF_UNIT.get(f.split(':')[0], '?')) for f in fails)
     ctx.log('proof stage ok=%s failing=%s' % (res['ok'], res['failing']))
     ctx.cov['trusted_base'] = [
         'Coq 8.16.1 kernel + vm_compute (case evaluation)',
@@ -1156,7 +1203,9 @@ def run(ctx):
         'Spec/C09_*.v as the reading of RFC 8439 (cross-checked on every run against the implementation, an independent Python '
         'transcription and the openssl CLI)',
         'CPython: struct.pack/unpack, hmac.compare_digest (= equality), unbounded int arithmetic',
-        'oracles (not verified): AES and 3DES block functions, SHA/MD5/HMAC from hashlib',
+        'oracles (not verified): AES and 3DES block functions (Base/C09_Oracle.v BlockOracle; rijndael.py/python_tripledes.py: correspondence '
+        'against openssl ECB + FIPS-197 vectors only), SHA/MD5/HMAC from hashlib (Oracles record)',
+        'hand models Model/C09_KeyCalc.v (HKDF_expand_label, derive_secret, PRF_SSL, calc_key, key-block slicing, TLS 1.3 keys): correspondence tie only',
     ]
     ctx.assumptions += ['keys/nonces of the stated length, all sequence elements bytes (0..255)',
                         'ChaCha20: block counter + number of blocks <= 2^32 (RFC 8439 limit, < 256 GiB per nonce)',
